@@ -43,7 +43,7 @@ mutual
       else (idx, ctx)
 end
 
-/-- `compute_levels` + the zero-initialised arrays of `build_schema`. -/
+/-- `compute_levels` + the zero-initialised arrays of `build_schema` (when they exist). -/
 def buildLeaves (els : List Element) : List Leaf :=
   let n := countLeaves els
   let written :=
@@ -54,6 +54,11 @@ def buildLeaves (els : List Element) : List Leaf :=
       | root :: _ =>
         (children els.toArray els.length root.numChildren.toNat 1 0 0 ⟨[], 0⟩).2.leaves
   (written ++ List.replicate (n - written.length) (Leaf.mk 0 0 0)).take n
+
+/-- `build_schema`: a schema without any leaf is refused (`carquet_arena_calloc(arena, 0, …)`
+returns NULL, reported as an allocation error). -/
+def build (els : List Element) : Option (List Leaf) :=
+  if countLeaves els = 0 then none else some (buildLeaves els)
 
 def buildSteps (els : List Element) : Nat :=
   match els with
